@@ -219,7 +219,7 @@ func SaizBox(sizes []int, withType bool) []byte {
 		p = append(p, "cenc"...)
 		p = be32(p, 0)
 	}
-	same := len(sizes) > 0
+	same := len(sizes) > 0 && sizes[0] != 0 // a default size of 0 means "table follows"
 	for _, s := range sizes {
 		if s != sizes[0] {
 			same = false
